@@ -10,8 +10,9 @@ Mirrors the NumPy-backend execution of
   `subspace_denom = Lambda + amu` (length `r`), `preconditioned_eigmax = min(Lambda) + amu`,
   `preconditioned_eigmin = amu`;
 * `NystromPrecond._matmat` = `NystromPrecondLazy._matmat` = `AdaNysPrecond._matmat`:
-  `U @ (subspace_scaling * (U.T @ V)) + V` with `subspace_scaling = (num / denom - 1)[:, None]`
-  — NOTE `U.T`, a transpose WITHOUT conjugation, also for complex dtypes;
+  `U @ (subspace_scaling * (conj(U).T @ V)) + V` with `subspace_scaling = (num / denom - 1)[:, None]`
+  (the conjugate transpose since /repo 67a8740; before, `U.T` without conjugation — defect `nystrom-real-U`,
+  regression witness `C12_nystrom_transpose_regression`);
 * the dispatch rules `inverse` (swap `subspace_num` and `subspace_denom`: after the swap the numerator is
   the length-`r` vector and the denominator the scalar — NumPy broadcasting, type `Bc`) and `sqrt`
   (element-wise square roots of both), which return a `NystromPrecondLazy` with a copy of `U`.
@@ -61,13 +62,13 @@ structure Precond (K : Type) where
 def scaling (P : Precond K) : Vec K :=
   Array.ofFn (fun i : Fin P.r => sub (div (P.num.get i) (P.denom.get i)) one)
 
-/-- `U.T` as an array of rows (no conjugation) -/
-def transposeU (r : Nat) (U : Mat K) : Mat K :=
-  Array.ofFn (fun j : Fin r => U.map (fun row => row.getD j zero))
+/-- `conj(U).T` as an array of rows -/
+def conjTransposeU (r : Nat) (U : Mat K) : Mat K :=
+  Array.ofFn (fun j : Fin r => U.map (fun row => conj (row.getD j zero)))
 
-/-- `_matmat`, one column: `U @ (subspace_scaling * (U.T @ v)) + v` -/
+/-- `_matmat`, one column: `U @ (subspace_scaling * (conj(U).T @ v)) + v` -/
 def applyCol (P : Precond K) (v : Vec K) : Vec K :=
-  vadd (matVec P.U (Array.zipWith mul (scaling P) (matVec (transposeU P.r P.U) v))) v
+  vadd (matVec P.U (Array.zipWith mul (scaling P) (matVec (conjTransposeU P.r P.U) v))) v
 
 /-- `_matmat` on a block of columns -/
 def matmat (P : Precond K) (V : Array (Vec K)) : Array (Vec K) := V.map (applyCol P)
